@@ -222,7 +222,7 @@ theorem mem_of_getElem? {α : Type} {l : List α} {i : Nat} {a : α} (h : l[i]? 
 theorem suppr_between_act (M : List Cell) (hjunk : noJunk M = true) (hruns : runsShort M)
     (blk : List Nat) (mx : Nat) (hgood : Good (olds M) blk mx (insertRuns M 0 0).reverse)
     {j d : Nat} (hj : j ∈ addIdx M) (hd : d ∈ delIdx M)
-    (hline : (M.getD j default).line = (M.getD d default).line)
+    (hline : (M.getD j default).line.act = (M.getD d default).line.act)
     (hlk : iosDelLookup M (M.getD j default).line.mkey = some (countOld M d))
     (r : Nat × Nat × List Line) (hr : r ∈ insertRuns M 0 0) (hrsn : RunRsn M blk r (newItem M j)) :
     ∀ k, k < M.length → (j < k ∧ k < d ∨ d < k ∧ k < j) →
@@ -373,18 +373,19 @@ theorem plan_general' (M : List Cell) (hboth : (M.any fun c => c.old && c.new) =
     rw [hg, List.zip_map'] at hrsn
     exact hrsn (newItem M j, g j) (List.mem_map.mpr ⟨j, hj, rfl⟩) hgj
 
-/-- Without remark lines, and if a deleted and an inserted line with the same `mkey` are the same
-line, every suppressed move is harmless. -/
-theorem supprOK_noremark (M : List Cell) (hjunk : noJunk M = true) (hruns : runsShort M)
+/-- Without remark lines, and if a deleted and an inserted line with the same `mkey` are `E`-related
+(`E` preserving the action), every suppressed move is harmless. -/
+theorem supprOK_noremark (E : Line → Line → Prop) (hEact : ∀ a b, E a b → a.act = b.act)
+    (M : List Cell) (hjunk : noJunk M = true) (hruns : runsShort M)
     (hnr : ∀ c ∈ M, c.line.remark = false)
     (hsame : ∀ i ∈ delIdx M, ∀ j ∈ addIdx M,
       (M.getD i default).line.mkey = (M.getD j default).line.mkey →
-      (M.getD i default).line = (M.getD j default).line)
+      E (M.getD i default).line (M.getD j default).line)
     (g : Nat → Bool)
     (hg : ∀ j ∈ addIdx M, g j = true → ∃ r ∈ insertRuns M 0 0, RunRsn M
       (blockPass (olds M) (insertRuns M 0 0) (blocksOf (olds M)) (maxBlock (olds M))).1 r
       (newItem M j)) :
-    SupprOK M ((addIdx M).filter (supprAt M g)) := by
+    SupprOK E M ((addIdx M).filter (supprAt M g)) := by
   have hnro : noRemark (olds M) := by
     intro l hl
     simp only [olds, List.mem_map, List.mem_filter] at hl
@@ -403,12 +404,16 @@ theorem supprOK_noremark (M : List Cell) (hjunk : noJunk M = true) (hruns : runs
   | none => rw [hl] at hsome; exact absurd hsome (by simp)
   | some d =>
     obtain ⟨hd, hdm⟩ := delLookup_some hl
-    have hline := (hsame d hd j hj hdm).symm
-    refine ⟨d, hd, hline, ?_⟩
+    have hline := hsame d hd j hj hdm
+    refine ⟨d, hd, hdm, hline, ?_⟩
     intro k hk hb _
     obtain ⟨r, hr, hrsn⟩ := hg j hj hgj
-    have hact := suppr_between_act M hjunk hruns _ _ hgood hj hd hline
+    have hact := suppr_between_act M hjunk hruns _ _ hgood hj hd (hEact _ _ hline).symm
       (by simp [iosDelLookup, hl]) r hr hrsn k hk hb
     exact Or.inr (Or.inr (act_eq_permit (hrem d (mem_delIdx.mp hd).1) (hrem k hk) hact.symm))
+
+theorem LineEqv.act {a b : Line} (h : LineEqv a b) : a.act = b.act := by
+  obtain ⟨_, h2, h3, _⟩ := h
+  simp [Line.act, h2, h3]
 
 end NA.Acl
